@@ -35,6 +35,9 @@ type Options struct {
 	Tweak   func(cfg *fosite.Config)
 	// Extra factories are appended after the default handler list (agentD: device grant, PAR).
 	Extra []compose.Factory
+	// Factories, when non-nil, replaces the default handler list (Extra is still appended): needed where
+	// the order matters, e.g. the PKCE handler must come after every handler that issues a code (agentD).
+	Factories []compose.Factory
 	// WrapStore, when set, receives the freshly populated MemoryStore and returns the storage
 	// handed to compose (a wrapper embedding the MemoryStore); World.Store stays the MemoryStore.
 	WrapStore func(st *storage.MemoryStore) interface{}
@@ -103,6 +106,9 @@ func New(opt Options) *World {
 		compose.OAuth2TokenIntrospectionFactory,
 		compose.OAuth2TokenRevocationFactory,
 		compose.OAuth2PKCEFactory,
+	}
+	if opt.Factories != nil {
+		factories = append([]compose.Factory(nil), opt.Factories...)
 	}
 	factories = append(factories, opt.Extra...)
 	p := compose.Compose(cfg, backing, strat, factories...)
